@@ -234,3 +234,14 @@ Example c10_any_capture_nonvacuous_srv6 :
     | _ => False end
   | None => False end | _ => False end.
 Proof. vm_compute. repeat split. Qed.
+
+(* ... and through IPFIX: a dataLinkFrameSection (element 315) that carries the first n bytes of a frame, for EVERY n,
+   dissected into ANY record message that has no layers and no segment list yet *)
+From GF Require Import Proofs.SFlowE2E.
+Theorem c10_ipfix_frame_section_any_length : forall f n m0 base up,
+  wf_frame f = true -> base_ok m0 ->
+  exists m1, parse_packet empty_pcfg m0 (firstn n (encode_frame f)) = Ok m1 /\ cols_ok m0 m1 f /\ layers_ok m1 f /\
+    nf_field empty_prodcfg 10 base up m0 315 (firstn n (encode_frame f)) =
+    Ok (let m2 := msetI m1 cPackets 1 in if mgetI m2 cBytes =? 0 then msetI m2 cBytes (lenN (firstn n (encode_frame f))) else m2).
+Proof. exact ipfix_frame_section_cut. Qed.
+Print Assumptions c10_ipfix_frame_section_any_length.
